@@ -136,6 +136,14 @@ fn seeds() -> Vec<(&'static str, Route, Vec<u8>)> {
         ("sjis", Route::Direct, b"HTTP/1.1 200 OK\r\nContent-Type: text/html;charset=Shift_JIS\r\nContent-Length: 4\r\n\r\n\x82\xa0\x82\xa2".to_vec()),
         ("connect-ok", Route::Connect, b"HTTP/1.1 200 Connection established\r\nProxy-Agent: x\r\n\r\n".to_vec()),
         ("connect-refused", Route::Connect, b"HTTP/1.1 407 Proxy Authentication Required\r\nProxy-Authenticate: Basic realm=\"x\"\r\nContent-Length: 6\r\n\r\ndenied".to_vec()),
+        ("connect-refused-long", Route::Connect, {
+            // a refusal text of two-byte characters and bytes that are not UTF-8, longer than any excerpt
+            let mut w = b"HTTP/1.1 403 Forbidden\r\n\r\nx".to_vec();
+            w.extend_from_slice("\u{e9}".repeat(60).as_bytes());
+            w.extend_from_slice(&[0xff, 0xfe, 0x80]);
+            w.extend_from_slice("\u{20ac}".repeat(40).as_bytes());
+            w
+        }),
     ]
 }
 
@@ -285,6 +293,20 @@ fn mutants(tier: Tier) -> Vec<Case> {
                     push(format!("splice:{na}:{i}:{nb}:{j}"), *ra, m, false);
                 }
             }
+        }
+    }
+    // Content-Type values with odd, cut-off or empty parameters: the text and json helpers look at them
+    let ct_values: Vec<&str> = vec![
+        "", ";", "; ", ";;", "text/plain;", "text/plain; ", "text/plain;charset", "text/plain; charset", "text/plain; charset=", "text/plain;charset= ",
+        "text/plain; charset=\"", "text/plain; charset=\"\"", "text/plain; charset=\"utf-8", "text/plain; charset=utf-8\"", "text/plain; charset=\"utf-8\"", "text/plain; charset='", "text/plain; charset=;",
+        "text/plain; charset=\" ", "text/plain; charset=\"\t", "; charset=\"", "charset=\"", "text/plain; x=y; charset=\"", "text/plain; CHARSET=\"", "text/plain;  charset=\"", "text/plain; charset",
+        "text/plain; chars", "text/plain; c", "a", "/", "text/", "/plain", "text/plain; charset=\u{e9}", "text/plain; charset=utf-8; q=\"", "text/plain; charset=a\"b",
+    ];
+    for (i, ct) in ct_values.iter().enumerate() {
+        for body in [&b""[..], &b"hi"[..], &b"\"a\""[..]] {
+            let mut w = format!("HTTP/1.1 200 OK\r\nContent-Type: {ct}\r\nContent-Length: {}\r\n\r\n", body.len()).into_bytes();
+            w.extend_from_slice(body);
+            push(format!("content-type:{i}:{}", body.len()), Route::Direct, w, true);
         }
     }
     out.extend(stalls);
@@ -567,6 +589,12 @@ fn run_case(c: &Case) -> Outcome {
 }
 
 fn short_kind(e: &attohttpc::Error) -> String {
+    // what a caller does with an error: print it (inside the guarded run, so a panic here counts)
+    let shown = format!("{e}");
+    std::hint::black_box(&shown);
+    if let Some(src) = std::error::Error::source(e) {
+        std::hint::black_box(format!("{src}"));
+    }
     let s = format!("{:?}", e.kind());
     let cut = s.find(|c: char| c == '(' || c == '{' || c == ' ').unwrap_or(s.len());
     let head = &s[..cut];
@@ -825,7 +853,7 @@ pub fn c05(ctx: &Ctx) -> Report {
     rep.set("enumeration_wall_s", t0.elapsed().as_secs_f64());
     rep.set(
         "rule",
-        format!("(1) ALL strings of length 0..={} over {{1,a,;,:,SP,CR,LF,x}} as (a) whole response, (b) header section after a valid status line, (c) body after a valid chunked head, (d) CONNECT reply; each unsegmented and in 1-byte segments, followed by bytes(); (2) every single-bit flip, byte deletion, byte duplication, truncation, numeric blow-up (11 values + 200 zeros) of 15 seed responses (3 framings, gzip, raw and zlib-wrapped deflate, redirects, json, folded, Shift_JIS, CONNECT ok / refused) and every structural splice between two seeds, read with bytes()/text()/json(); (3) {} endless streams with a pull budget. distinct_nontrivial counts distinct non-empty inputs; observed outcome classes: {}", space.l, space.endless.len(), distinct),
+        format!("(1) ALL strings of length 0..={} over {{1,a,;,:,SP,CR,LF,x}} as (a) whole response, (b) header section after a valid status line, (c) body after a valid chunked head, (d) CONNECT reply; each unsegmented and in 1-byte segments, followed by bytes(); (2) every single-bit flip, byte deletion, byte duplication, truncation, numeric blow-up (11 values + 200 zeros) of 16 seed responses (3 framings, gzip, raw and zlib-wrapped deflate, redirects, json, folded, Shift_JIS, CONNECT ok / refused) and every structural splice between two seeds, read with bytes()/text()/json(); (3) {} endless streams with a pull budget. distinct_nontrivial counts distinct non-empty inputs; observed outcome classes: {}", space.l, space.endless.len(), distinct),
     );
     rep.assume("allocation is what goes through Rust's global allocator on the calling thread (OpenSSL's own allocations during a tunnelled handshake are not counted)");
     rep.assume("limits: finite input => at most 2*len+64 transport reads; peak allocation <= 512 KiB + 6 x bytes actually served (96 x for json()); endless head constructs rejected after <= 16 KiB*(max_headers+2)+64 KiB; CONNECT refusal body <= 10 KiB in the error and <= 10 KiB + 8 KiB pulled");
